@@ -34,7 +34,7 @@ PLANS["C20"] = dict(
     translate=True,
     modules=["Wx.Pure.Origins", "Wx.Pure.OriginsThm"],
     theorems=["Wp.origins_eq_doc", "Wp.types_eq_doc", "Wp.documentedS_typed", "Wp.origins_exact", "Wp.origins_sublist", "Wp.types_exact", "Wp.typeMarkers_documented", "Wp.typeMarkers_are_originMarkers",
-              "Wp.originMarkers_recognised", "Wp.isVcs_documented", "Wp.isSoft_documented", "Wp.exactlyOne_holds", "Wp.classified", "Wp.all_complete"],
+              "Wp.originMarkers_recognised", "Wp.origins_translator_complete", "Wp.isVcs_documented", "Wp.isSoft_documented", "Wp.exactlyOne_holds", "Wp.classified", "Wp.all_complete"],
     bins=[("lib", ["wxtables"])],
     streams=c20_streams,
     sources=["crates/project-origins/src/lib.rs"],
